@@ -54,23 +54,21 @@ Theorem C14_cr : forall x : list chr, nocr x ->
 Proof. exact pipeline_cr_total. Qed.
 Print Assumptions C14_cr.
 
-(* The same over BUFFERED input back-ends of any capacities >= 8 (the two runs may use different ones), by C10's
-   value-level agreement of the back-ends; the only hypothesis left is that the buffered runs do not exhaust their fuel
-   (bounded work is proved for the string instance only; monitored by the correspondence run). *)
+(* The same over BUFFERED input back-ends of any capacities >= 8 (the two runs may use different ones): unconditionally,
+   since every buffered pipeline returns exactly what the string pipeline returns (C10_pipeline_backends_equal; bounded
+   work is proved for the buffered instance too: C01_pipeline_terminates_linear_buffered). *)
 Theorem C14_crlf_buffered : forall (x : list chr) cap1 cap2,
   (8 <= cap1)%nat -> (8 <= cap2)%nat -> nocr x ->
-  snd (run_buf cap1 x) <> PFuel -> snd (run_buf cap2 (crlf x)) <> PFuel ->
   Forall2 EVR (fst (run_buf cap1 x)) (fst (run_buf cap2 (crlf x)))
   /\ PER (snd (run_buf cap1 x)) (snd (run_buf cap2 (crlf x))).
-Proof. exact pipeline_crlf_buffered. Qed.
+Proof. exact pipeline_crlf_buffered_total. Qed.
 Print Assumptions C14_crlf_buffered.
 
 Theorem C14_cr_buffered : forall (x : list chr) cap1 cap2,
   (8 <= cap1)%nat -> (8 <= cap2)%nat -> nocr x ->
-  snd (run_buf cap1 x) <> PFuel -> snd (run_buf cap2 (cr x)) <> PFuel ->
   Forall2 EVR (fst (run_buf cap1 x)) (fst (run_buf cap2 (cr x)))
   /\ PER (snd (run_buf cap1 x)) (snd (run_buf cap2 (cr x))).
-Proof. exact pipeline_cr_buffered. Qed.
+Proof. exact pipeline_cr_buffered_total. Qed.
 Print Assumptions C14_cr_buffered.
 
 Example C14_buffered_example :
